@@ -114,6 +114,7 @@ class PathCtx:
         self.proved = 0
         self.reached = 0
         self.reach_unknown = 0
+        self.hints = []
         self.note = None
 
     # reachability twin: `assert False` at the assertion point must be violated (pc satisfiable)
@@ -202,6 +203,10 @@ class PathCtx:
             tries += 1
             if tries >= 4:
                 self.findings.append(dict(kind='spurious', what=what, inputs=inputs, note=res.get('error')))
+                if z3.is_false(z3.simplify(c)):
+                    # an exception seen only on proxies (typically a C boundary the value model cannot cross): the path is
+                    # inconclusive; try the boundary models concretely
+                    self._concolic()
                 return False
             pt = []
             for name in eng.input_order:
@@ -225,8 +230,31 @@ class PathCtx:
         return self.prove(z3.BoolVal(False), what, classes=classes, chain=False)
 
     def unsupported(self, what):
+        """the value model cannot follow this path (C boundary, unsupported operation): the path is inconclusive.
+        Concolic fallback: a model of the path condition reached so far is run concretely on the real code with the
+        harness' concrete oracle; a violation observed there is a replayed violation like any other."""
         self.eng.stats['unsupported'] += 1
         self.findings.append(dict(kind='unsupported', what=what))
+        if self.check.concrete.__func__ is Check.concrete:
+            return
+        self._concolic()
+
+    def _concolic(self):
+        # models tried: one per boundary hint the harness declared (ties, exact divisions, ... named by the property), then an arbitrary one
+        for hint in list(getattr(self, 'hints', [])) + [None]:
+            try:
+                extra = [hint] if hint is not None else []
+                m = self.eng.nice_model(extra) or self.eng.path_model(extra)
+                if m is None:
+                    continue
+                inputs = self.eng.input_values(m)
+                res = self._concrete(inputs)
+            except Exception:
+                continue
+            if res and res.get('violation'):
+                self.findings.append(dict(kind='violation', what='concrete run of a model of a path the symbolic engine could not follow: property violated',
+                                          inputs=inputs, observed=res.get('violation'), detail=res.get('detail')))
+                return
 
 
 def _is_proxy_typeerror(e):
